@@ -469,7 +469,10 @@ STREAMS = [
            nontrivial=lambda c, o: any(x.startswith("ok|") or " ok|" in x for x in o)),
 ]
 
-LEVEL_TEXT = ("Proof (PURE PART; the end-to-end lookups - merge of the A and AAAA sub-queries, hosts file, lookup "
+LEVEL_TEXT = ("Proof. End-to-end part at the model level (C13b/C12c): for the channel model's getaddrinfo client the addresses "
+              "delivered are exactly those of the successful replies for the winning candidate (A and AAAA sub-queries merged in "
+              "arrival order), none invented, duplicated or dropped, none on cancel, and every reply the client sees is an accepted "
+              "one or a cached copy of one. Pure part (the end-to-end lookups - merge of the A and AAAA sub-queries, hosts file, lookup "
               "order, names queried - are tied by the coordinator's channel simulator, which imports "
               "Cares.AddrInfo.addrinfoOfAnswer): Lean 4 theorems that ares_parse_into_addrinfo yields exactly the A/AAAA "
               "records (class IN) of an answer in order with port and TTL and appends them to what earlier answers "
